@@ -7,9 +7,9 @@ produced; what is proved here, for all inputs, is
   * the instruction codec (`varu32_roundtrip`, `instr_roundtrip`, `decode_progress`),
   * the soundness of the verifier w.r.t. the abstract VM of Model/AbsVM.lean
     (`wf_sound_jumps`, `wf_sound_regs`, `wf_sound_balance`),
-  * the offset checks (`offset_checked`, `jump_back_unchecked_witness`),
+  * the offset checks (`offset_checked`, `jump_back_checked`),
   * the register allocator invariant and limits (`frame_inv`, `frame_limits`,
-    `frame_new_wrap_witness`).
+    `frame_new_wrap_witness`, `frame_new_guarded`).
 Helper lemmas: Lemmas/C05Codec.lean, Lemmas/C05Frame.lean, Lemmas/C05WF.lean.
 -/
 import KotoVerif.Lemmas.C05Codec
@@ -76,17 +76,22 @@ theorem offset_faithful (off : Nat) (bs : List Nat) (h : updateOffset off = some
     exact ⟨_, _, rfl, by simp [decodeU16]; omega⟩
   · simp at h
 
-/-- `push_jump_back_op` has no such check (finding F-C05-1): a backward distance of 65536 + 41 bytes
-is written as 41. This is the negation of `offset_checked` for backward jumps. -/
-theorem jump_back_unchecked_witness :
-    ∃ off, off > 65535 ∧ ∃ a b, jumpBackOffsetBytes off = [a, b] ∧ decodeU16 a b ≠ off :=
-  ⟨65577, by decide, 41, 0, by decide, by decide⟩
+/-- **jump_back_checked** (since fix f85bfca, finding F-C05-1): `push_jump_back_op` reports exactly
+the backward distances that do not fit a `u16` — the same law as `offset_checked`. -/
+theorem jump_back_checked (off : Nat) : jumpBackOffset off = none ↔ off > 65535 := by
+  unfold jumpBackOffset
+  split <;> simp <;> omega
 
-/-- what does hold for backward jumps: distances that fit are written faithfully -/
-theorem jump_back_partial (off : Nat) (h : off ≤ 65535) :
-    ∃ a b, jumpBackOffsetBytes off = [a, b] ∧ decodeU16 a b = off := by
-  refine ⟨_, _, rfl, ?_⟩
-  simp [decodeU16]; omega
+/-- accepted backward distances are written faithfully -/
+theorem jump_back_faithful (off : Nat) (bs : List Nat) (h : jumpBackOffset off = some bs) :
+    ∃ a b, bs = [a, b] ∧ decodeU16 a b = off := by
+  unfold jumpBackOffset at h
+  split at h
+  · simp at h; subst h
+    exact ⟨_, _, rfl, by simp [decodeU16]; omega⟩
+  · simp at h
+
+example : jumpBackOffset 65577 = none ∧ jumpBackOffset 41 = some [41, 0] := by decide
 
 /-! ## Soundness of the verifier
 
@@ -264,7 +269,8 @@ theorem frame_new_inv (lc : Nat) (args : List Arg) (caps : List Nat) (s : Frame.
 example : ∃ s, Frame.new 3 [.local_ 1, .placeholder, .local_ 2] [7] = .ok s () ∧ s.tb = 6 :=
   ⟨_, rfl, rfl⟩
 
-/-- **frame_new_wrap_witness** (finding F-C05-3): `1 + locals + captures + placeholders` is summed in
+/-- **frame_new_wrap_witness** (finding F-C05-3, about `Frame::new` itself — the compiler no longer
+reaches it, see `frame_new_guarded`): `1 + locals + captures + placeholders` is summed in
 `u8` without a check. With 248 locals and 12 captures the sum is 261: a build with overflow checks
 panics, a build without wraps to `temporary_base = 5`, below the frame's own locals — so the
 allocator invariant (`locals.length ≤ tb`) fails and temporaries would overlap locals. 255 locals
@@ -293,5 +299,25 @@ theorem frame_new_partial (lc : Nat) (args : List Arg) (caps : List Nat)
     have h3 : ¬ (1 + lc + caps.length + placeholders args > 255) := by omega
     simp [Frame.new, hc, hp, u8Max, h1, h2, h3]
   · simp [baseSum]
+
+/-- **frame_new_guarded** (since fix 4f80b78, finding F-C05-3): through the compiler's guard
+`Frame::new` is only reached with a sum that fits — it then never panics or wraps, and the base is the
+exact sum; above the limit the guard reports the compile error. So `frame_new_wrap_witness` remains a
+statement about `Frame::new` called directly, not about anything the compiler does. -/
+theorem frame_new_guarded (lc : Nat) (args : List Arg) (caps : List Nat) :
+    (baseSum lc args caps > 255 → Frame.newGuarded lc args caps = none)
+    ∧ (baseSum lc args caps ≤ 255 →
+        ∃ s, Frame.newGuarded lc args caps = some (.ok s ()) ∧ s.tb = baseSum lc args caps) := by
+  refine ⟨?_, ?_⟩
+  · intro h
+    simp [Frame.newGuarded, u8Max, h]
+  · intro h
+    obtain ⟨s, hs, htb⟩ := frame_new_partial lc args caps h
+    refine ⟨s, ?_, htb⟩
+    have : ¬ (baseSum lc args caps > 255) := by omega
+    simp [Frame.newGuarded, u8Max, this, hs]
+
+/-- the former witness inputs are now compile errors -/
+example : Frame.newGuarded 248 [] (List.range 12) = none ∧ Frame.newGuarded 255 [] [] = none := by decide
 
 end KotoVerif.C05
